@@ -298,6 +298,55 @@ class Oracle(object):
                 if wr != wrf[n]:
                     wrf[n] = wr
                     changed = True
+        # effects and container-word writes are recomputed over *live* blocks only: a landing pad
+        # whose invoke cannot throw (cleanup code for a non-throwing constructor, ...) is dead, and
+        # what it would call must not count as an effect of the function
+        live_calls = {}
+        for n, f in mod.funcs.items():
+            if not f.entry:
+                live_calls[n] = []
+                continue
+            seen = set()
+            work = [f.entry]
+            while work:
+                lb = work.pop()
+                if lb in seen:
+                    continue
+                seen.add(lb)
+                b = f.blocks[lb]
+                for (sname, kind) in b.succs:
+                    if kind == 'unwind':
+                        t = b.instrs[-1]
+                        cn = t.callee[1:].strip('"') if t.callee and t.callee[0] == '@' else None
+                        ct = throws.get(cn) if cn is not None else {'?'}
+                        if cn is not None and cn not in throws:
+                            ct = {'?'}
+                        if t.nounwind_site or not ct:
+                            continue
+                    work.append(sname)
+            live_calls[n] = [(cn, lb, ins) for (cn, lb, ins) in calls[n] if lb in seen]
+        self._live_calls = live_calls
+        effects = {n: set(direct_eff[n]) for n in direct_eff}
+        wrf = dict(direct_wr)
+        changed = True
+        it2 = 0
+        while changed and it2 < 60:
+            changed = False
+            it2 += 1
+            for n, f in mod.funcs.items():
+                if self.kind.get(n) in ('ALLOC', 'DEALLOC'):
+                    continue
+                ef = set(direct_eff[n])
+                wr = direct_wr[n]
+                for (cn, lb, ins) in live_calls[n]:
+                    ef |= effects.get(cn, set())
+                    wr = wr or wrf.get(cn, False)
+                if ef != effects[n]:
+                    effects[n] = ef
+                    changed = True
+                if wr != wrf[n]:
+                    wrf[n] = wr
+                    changed = True
         self.throws = {n: frozenset(v) for n, v in throws.items()}
         self.effects = {n: frozenset(v) for n, v in effects.items()}
         self.writes_fields = wrf
